@@ -151,6 +151,10 @@ type Setup struct {
 	// GenesisN (0 = N): only the first GenesisN keypers are in shuttermint's genesis
 	// configuration; the others first become keypers with the new set
 	GenesisN int
+	// L1Past: from the vote block on the keypers see a main-chain block past the new
+	// set's activation block (they vote late): the accepted configuration is started
+	// by the next block-seen reports instead of after the key generation
+	L1Past bool
 }
 
 // GenesisMembers are the keypers of shuttermint's genesis configuration.
